@@ -82,7 +82,8 @@ def _release_order(F, E, rep, tag):
                             cls2 = atomics.atomic_class(tt)
                             if cls2 == model.ATOMIC_LOAD and atomics.receiver_is_count(F, UB, tt) and atomics.ordering_of(UB, tt["args"][1]) in atomics.ACQUIRE_OK:
                                 acq = True
-                            if cls2 == model.FENCE and atomics.ordering_of(UB, tt["args"][0]) in atomics.ACQUIRE_OK:
+                            # (a real fence: `compiler_fence` orders nothing between threads)
+                            if cls2 == model.FENCE and (atomics.callee_of(tt) or "").endswith("atomic::fence") and atomics.ordering_of(UB, tt["args"][0]) in atomics.ACQUIRE_OK:
                                 acq = True
                     if not acq and bad is None:
                         bad = p
@@ -321,7 +322,7 @@ def main(argv):
         explanation=(
             "Checks that the code instantiates the premises of the release/acquire reference-counting lemma (Boost.Atomic / std::sync::Arc): "
             "R-ORD-1 every decrement of the count word is Release or stronger; R-ORD-2 on every path from the decrement to the free there is, "
-            "after the decrement, an Acquire/SeqCst load of the count word or an acquire fence (or the decrement is AcqRel/SeqCst); R-ORD-3 the "
+            "after the decrement, an Acquire/SeqCst load of the count word or an acquire `atomic::fence` - not `compiler_fence`, which orders nothing between threads (round nineteen, seed C02t) - (or the decrement is AcqRel/SeqCst); R-ORD-3 the "
             "branch guarding the free tests the value returned by the decrement itself against 1 and the free sits on the ==1 side; R-ORD-4 the "
             "count field is never accessed non-atomically or by store/swap/CAS after its one-time initialisation; R-ORD-6 nothing touches count or "
             "payload after the free; R-FUNNEL the only read-modify-write sites are Arc's, and every handle kind's Clone/Drop reaches them exactly "
